@@ -72,9 +72,15 @@ def leaf_values(info, rng, dim, zero, use_mag):
         # by the magnetic kernel inside the mixture but by the plain kernel alone (sasmodels'
         # documented magnetic on/off switch), so every SLD-bearing component gets a magnitude
         if m0 and use_mag:
-            pars[m0[0]] = rng.choice([1.0, 3.0])
-            pars[m0[0][:-3] + "_mtheta"] = rng.choice([20.0, 60.0])
-            pars[m0[0][:-3] + "_mphi"] = rng.choice([10.0, 80.0])
+            # one magnitude on a randomly chosen SLD (for vector SLDs often a later element), sometimes two
+            ctl = {q.length_control for q in P.kernel_parameters if q.length_control}
+            nmax = min([int(dflt.get(c, 1)) for c in ctl] or [99])
+            live = [nm for nm in m0 if int("".join(ch for ch in nm[:-3] if ch.isdigit()) or 1) <= max(nmax, 1)]
+            rng.shuffle(live)
+            for nm in live[:rng.choice([1, 1, 2])]:
+                pars[nm] = rng.choice([1.0, 3.0])
+                pars[nm[:-3] + "_mtheta"] = rng.choice([20.0, 60.0])
+                pars[nm[:-3] + "_mphi"] = rng.choice([10.0, 80.0])
     if zero and info.id == "line":
         pars["intercept"] = 0.0
         pars["slope"] = 2.0
@@ -86,7 +92,7 @@ def run(sc):
     from sasmodels.direct_model import call_kernel
     rng = random.Random(sc["seed"])
     expr, dim = sc["expr"], sc["dim"]
-    use_mag = dim == "2d" and rng.random() < 0.5
+    use_mag = dim == "2d" and (sc["mag"] if "mag" in sc else rng.random() < 0.5)
     if dim == "2d":
         q = ([np.array([0.01, -0.04, 0.08]), np.array([0.02, 0.03, -0.05])] if use_mag else
              [np.array([0.0, 0.01, -0.04, 0.08]), np.array([0.0, 0.02, 0.03, -0.05])])
@@ -115,7 +121,8 @@ def run(sc):
                     if op == "+":
                         sname = names[idx]
                         idx += 1
-                        s = rng.choice([1.0, 0.5, 3.0])
+                        # (a negative scale is how a difference of two models is written; zero switches a part off)
+                        s = rng.choice([1.0, 0.5, 3.0, -0.75, 0.0, 2.0])
                         pars[sname] = s
                         scales.append(fstr(s))
                     n = len(expand(part))
